@@ -19,6 +19,9 @@ Local Open Scope string_scope.
 Definition writeC : utree -> string := write fmt_go.
 Definition parseC : string -> pres := parse numericC parse_numC.
 Definition wfNC : utree -> bool := wfN numericC is_b64.
+(** the domain of the proved round-trip theorem of the executable model (Properties/C01.v);
+    the tag "rt:wf-numgap" counts trees of the quantifier that are outside it *)
+Definition wfNT : utree -> bool := wfN numericC numokC.
 
 Definition has_key (k : string) (o : sexp) : option string :=
   match get k o with
@@ -68,7 +71,8 @@ Definition judge_roundtrip (c o : sexp) : verdict :=
              (fun g => match get_string "text2" o with
                        | None => VBad "no text2"
                        | Some s2 =>
-                         if String.eqb (writeC g) s2 then VOk inq (if inq then "rt:wf" else "rt:outside")
+                         if String.eqb (writeC g) s2
+                         then VOk inq (if inq then (if wfNT t then "rt:wf" else "rt:wf-numgap") else "rt:outside")
                          else VCorr ("second write, model: " ++ writeC g ++ " implementation: " ++ s2)
                        end)
              (VOk false "rt:outside-rejected")
